@@ -451,7 +451,8 @@ def replay_once(path):
         rep = H.run_vderive("tc-u-dev", "replay", rec["property"], "quick", out, extra=["--file", path])
     else:
         rep = rerun_and_filter(rec)
-    return [(v["tag"], v["detail"] if kind in ("layer1", "layer2") else "") for v in rep["violations"]]
+    # tags only: a defect that itself depends on hash order may show a different detail text each time
+    return sorted({(v["tag"], "") for v in rep["violations"]})
 
 
 def rerun_and_filter(rec):
